@@ -224,6 +224,8 @@ def _is_bool_like(value: Any) -> bool:
 
 
 def _is_int_like(value: Any) -> bool:
+    if isinstance(value, bool):
+        return False
     return isinstance(value, (IntExpr, int, IntArray1D, IntArray2D))
 
 
